@@ -42,7 +42,7 @@ def bench_like(env, name, inputs, outputs, gates):
     return c
 
 
-def cell_style(env, name, inputs, outputs, gates):
+def cell_style(env, name, inputs, outputs, gates, outputs_first=False):
     """an implementation whose ports are cells (input / output kinds) and whose signals are forks - the shape a parsed Verilog module has:
     an output port may be fed by a branch (index > 0) of an inner fork"""
     C, N, L = env['Circuit'], env['Node'], env['Line']
@@ -57,14 +57,19 @@ def cell_style(env, name, inputs, outputs, gates):
         cell = N(c, o + '_g', kind)
         forks[o] = N(c, o)
         L(c, cell, forks[o])
-    for o, kind, ins in gates:
-        for k, i in enumerate(ins):
-            if i is not None:
-                L(c, forks[i], (c.cells[o + '_g'], k))
+    def readers():
+        for o, kind, ins in gates:
+            for k, i in enumerate(ins):
+                if i is not None:
+                    L(c, forks[i], (c.cells[o + '_g'], k))
+    if not outputs_first:
+        readers()
     for o in outputs:
         p = N(c, o + '_po', 'output')
         L(c, forks[o], p)
         c.io_nodes.append(p)
+    if outputs_first:
+        readers()          # the output port hangs on branch 0 of its fork, the inner readers on later branches
     return c
 
 
@@ -289,6 +294,7 @@ LIB = {
     'UNRD2X': (['A', 'B', 'C'], ['Y'], [('Y', 'MUX21', ['B', 'B', 'A'])], None),      # pin 2 is not read, and the cell that takes over the instance reads A on its own pin 2
     'FILLX': ([], [], [], None),                                                     # no pins, no logic
     'VSTYLE': (['A', 'B'], ['Y', 'Z'], [('Z', 'INV', ['Y']), ('Y', 'AND2', ['A', 'B'])], 'cells'),   # ports are cells; output Y hangs on a later branch of the fork Y
+    'VSTYLE2': (['A', 'B'], ['Y', 'Z'], [('Z', 'INV', ['Y']), ('Y', 'AND2', ['A', 'B'])], 'cells-outputs-first'),   # ... or on branch 0, the inner reader on branch 1
 }
 
 
@@ -304,7 +310,7 @@ def evaluate(rep, repo, cmod):
     ncase = 0
     try:
         for kind, (ins, outs, gates, _d) in LIB.items():
-            impls[kind] = (cell_style if _d == 'cells' else bench_like)(env, kind, ins, outs, gates)
+            impls[kind] = cell_style(env, kind, ins, outs, gates, outputs_first=_d.endswith('first')) if str(_d).startswith('cells') else bench_like(env, kind, ins, outs, gates)
             why = consistent(impls[kind])
             if why:
                 raise AssertionError(why)
@@ -321,7 +327,7 @@ def evaluate(rep, repo, cmod):
     def designated_of(kind):
         # documented: the cell that drives the first output (through inner forks) takes over the instance's name
         ins, outs, gates, d_ = LIB[kind]
-        if d_ == 'cells':
+        if str(d_).startswith('cells'):
             return outs[0] + '_g' if outs else None
         return outs[0] if outs else None
     tlib_fn = {k: (impls[k], designated_of(k)) for k in LIB}
